@@ -2,7 +2,7 @@
 # usage: seed_matrix.sh [names...] : for every seeded change, apply it to a scratch worktree of /repo (never to /repo
 # itself), run the quick check of its property (and of the properties listed in meta "also") against that worktree,
 # undo; appends one line per run to seeded/MATRIX.txt.  Scratch: /tmp/mxrepo (removed at the end).
-cd /verif || exit 2
+cd ${VERIF_DIR:-/verif} || exit 2
 names="$@"; [ -z "$names" ] && names=$(ls seeded | grep -E '^(C[0-9]+[a-z]|fixrev_)')
 rm -rf /tmp/mxrepo; git -C /repo worktree prune; git -C /repo worktree add -q --detach /tmp/mxrepo HEAD || exit 2
 export XEOFS_REPO=/tmp/mxrepo VERIF_WORK=/tmp/mx_work VERIF_EVIDENCE_DIR=/tmp/mx_evid VERIF_REPLAYS_DIR=/tmp/mx_replays
